@@ -61,6 +61,8 @@ func RunBitPairs(w *World, r *Report, pkgRel, decName, encName string) {
 	// lost whenever both are set
 	encUnder := map[string]string{}
 	var encAlways int64 // bits the encoder sets unconditionally
+	var otherConds []ast.Expr       // enclosing conditions that are not flag fields
+	encOnlyIf := map[string]string{} // flag -> condition (other than a flag) its bits are written under
 	var negs []string
 	var walk func(n ast.Node, fields []string)
 	walk = func(n ast.Node, fields []string) {
@@ -99,8 +101,10 @@ func RunBitPairs(w *World, r *Report, pkgRel, decName, encName string) {
 				walk(whenFalse, fields)
 				negs = negs[:len(negs)-1]
 			} else {
+				otherConds = append(otherConds, x.Cond)
 				walk(x.Body, fields)
 				walk(x.Else, fields)
+				otherConds = otherConds[:len(otherConds)-1]
 			}
 		case *ast.AssignStmt:
 			if x.Tok == token.OR_ASSIGN && len(x.Rhs) == 1 && len(fields) == 0 && len(negs) == 0 {
@@ -115,6 +119,9 @@ func RunBitPairs(w *World, r *Report, pkgRel, decName, encName string) {
 						encBits[f] = map[int64]bool{}
 					}
 					encBits[f][c] = true
+					if len(otherConds) > 0 {
+						encOnlyIf[f] = types.ExprString(otherConds[len(otherConds)-1])
+					}
 					for _, ng := range negs {
 						if ng != f {
 							encUnder[f] = ng
@@ -263,6 +270,8 @@ func RunBitPairs(w *World, r *Report, pkgRel, decName, encName string) {
 				other, when = other[1:], "true"
 			}
 			r.FailC("bitpair", key, []string{"dependent"}, w.Pos(efd.Pos()), fmt.Sprintf("flag %s: the encoder writes bits %s only when flag %s is %s, but the decoder reads the two flags from independent bits: the combination is not preserved", f, show(e), other, when), nil)
+		case encOnlyIf[f] != "":
+			r.FailC("bitpair", key, []string{"conditional"}, w.Pos(efd.Pos()), fmt.Sprintf("flag %s: the encoder writes bits %s only when %s holds, the decoder reads them unconditionally: where the condition fails the flag does not come back", f, show(e), encOnlyIf[f]), nil)
 		case overConstrained(f, decMask[f], d, encBits, encUnder, encAlways) != "":
 			r.FailC("bitpair", key, []string{"overconstrained"}, w.Pos(dfd.Pos()), fmt.Sprintf("flag %s: the decoder expects bits %s and also requires %s, which the encoder sets independently of this flag: the combination does not come back", f, show(d), overConstrained(f, decMask[f], d, encBits, encUnder, encAlways)), nil)
 		case show(e) != show(d):
